@@ -981,6 +981,9 @@ def _reuse_tool_with_param_dict(
     """
     setup_dict = config["param_dict"].copy()
     config["param_dict"].update(param_dict)
-    status = tool(config, tag=tag)
-    config["param_dict"] = setup_dict
+    try:
+        status = tool(config, tag=tag)
+    finally:
+        # a raising tool must not leak the temporary parameters to later steps
+        config["param_dict"] = setup_dict
     return status
